@@ -16,3 +16,204 @@ Lemma source_shapes :
   exn_src_catch = expected_src_catch /\ exn_src_buffer = expected_src_buffer /\
   exn_src_len = expected_src_len.
 Proof. repeat split; reflexivity. Qed.
+
+Lemma clear_active_generated : clear_active_on_catch = true.
+Proof. reflexivity. Qed.
+
+(* ------------------------------------------------------------------ small facts *)
+
+Lemma depth_bufs : forall s t, bufs s = bufs t -> depth s = depth t.
+Proof. unfold depth; intros s t H; now rewrite H. Qed.
+
+Lemma jump_or_die_not_normal : forall st, jump_or_die st <> MNormal.
+Proof. intros st; unfold jump_or_die; destruct (bufs st); discriminate. Qed.
+
+(* ------------------------------------------------------------------ the refinement *)
+
+Section Refinement.
+Variable max : nat.
+Notation run := (mrun max true).
+
+(* What the machine does on [p] from [st], against the structured semantics at the level
+   [depth st].  No hypothesis on [active st]: the flag is only read by exception_catch, and
+   exception_try has reset it by then. *)
+Definition refines (p : prog) (st : mstate) : Prop :=
+  forall tr r st', run p st = (tr, r, st') ->
+  forall tr0 r0, ref_run (depth st) p = (tr0, r0) ->
+  tr = tr0 /\ bufs st' = bufs st /\
+  match r0 with
+  | RNormal => r = MNormal /\ (active st = false -> active st' = false)
+  | RRaised k m => obj st' = Some k /\ msg st' = m /\ r = jump_or_die st'
+  end.
+
+Lemma refine : forall p st, depth st + nesting p <= max -> refines p st.
+Proof.
+  induction p as [ | n | p IHp q IHq | k m | b IHb fs h IHh | p IHp ];
+    intros st Hbound tr r st' Hrun tr0 r0 Href; cbn [nesting] in Hbound.
+  - (* PSkip *)
+    cbn in Hrun, Href. inversion Hrun; inversion Href; subst. auto.
+  - (* PTick *)
+    cbn in Hrun, Href. inversion Hrun; inversion Href; subst. auto.
+  - (* PSeq *)
+    cbn [mrun ref_run] in Hrun, Href.
+    destruct (run p st) as [[t1 r1] s1] eqn:E1.
+    destruct (ref_run (depth st) p) as [t01 r01] eqn:R1.
+    assert (Hp : depth st + nesting p <= max) by lia.
+    destruct (IHp st Hp _ _ _ E1 _ _ R1) as (-> & Hb1 & Hres1).
+    destruct r01 as [ | k m].
+    + destruct Hres1 as (-> & Hact1).
+      destruct (run q s1) as [[t2 r2] s2] eqn:E2.
+      rewrite <- (depth_bufs _ _ Hb1) in Href.
+      destruct (ref_run (depth s1) q) as [t02 r02] eqn:R2.
+      assert (Hq : depth s1 + nesting q <= max) by (rewrite (depth_bufs _ _ Hb1); lia).
+      destruct (IHq s1 Hq _ _ _ E2 _ _ R2) as (-> & Hb2 & Hres2).
+      inversion Hrun; inversion Href; subst.
+      split; [reflexivity|]. split; [congruence|].
+      destruct r0; [|exact Hres2].
+      destruct Hres2 as (-> & Hact2). split; [reflexivity|]. auto.
+    + destruct Hres1 as (Ho & Hm & Hr1).
+      assert (Hrun' : (t01, r1, s1) = (tr, r, st')).
+      { rewrite Hr1 in *. unfold jump_or_die in *. destruct (bufs s1); exact Hrun. }
+      inversion Hrun'; inversion Href; subst. auto.
+  - (* PThrow *)
+    cbn in Hrun, Href. inversion Hrun; inversion Href; subst. cbn. auto.
+  - (* PTry *)
+    cbn [mrun ref_run] in Hrun, Href.
+    unfold exception_try in Hrun.
+    assert (Hne : (depth st =? max) = false) by (apply Nat.eqb_neq; lia).
+    rewrite Hne in Hrun.
+    set (s0 := MS (obj st) (msg st) (depth st :: bufs st) false) in *.
+    assert (Hd0 : depth s0 = S (depth st)) by reflexivity.
+    destruct (run b s0) as [[t1 r1] s1] eqn:E1.
+    rewrite <- Hd0 in Href.
+    destruct (ref_run (depth s0) b) as [t01 r01] eqn:R1.
+    assert (Hb : depth s0 + nesting b <= max) by (rewrite Hd0; lia).
+    destruct (IHb s0 Hb _ _ _ E1 _ _ R1) as (-> & Hb1 & Hres1).
+    destruct r01 as [ | k m].
+    + (* body ended normally: pop, catch sees active = false *)
+      destruct Hres1 as (-> & Hact1). specialize (Hact1 eq_refl).
+      unfold exception_try_end in Hrun. rewrite Hb1 in Hrun. cbn [bufs s0] in Hrun.
+      unfold exception_catch in Hrun. cbn [active] in Hrun. rewrite Hact1 in Hrun. cbn in Hrun.
+      inversion Hrun; inversion Href; subst. cbn. auto.
+    + (* body raised: the jump names our buffer; fail, pop, catch *)
+      destruct Hres1 as (Ho & Hm & Hr1).
+      unfold jump_or_die in Hr1. rewrite Hb1 in Hr1. cbn [bufs s0] in Hr1. subst r1.
+      rewrite Nat.eqb_refl in Hrun.
+      unfold exception_try_end, exception_try_fail in Hrun. cbn [bufs] in Hrun.
+      rewrite Hb1 in Hrun. cbn [bufs s0] in Hrun.
+      unfold exception_catch in Hrun. cbn [active obj negb] in Hrun. rewrite Ho in Hrun.
+      destruct (matches fs k) eqn:Hmatch.
+      * (* handled here *)
+        unfold clear_active in Hrun. cbn [obj msg bufs active] in Hrun.
+        set (s4 := MS (Some k) (msg s1) (bufs st) false) in *.
+        assert (Hd4 : depth s4 = depth st) by reflexivity.
+        destruct (run h s4) as [[t2 r2] s5] eqn:E2.
+        rewrite <- Hd4 in Href.
+        destruct (ref_run (depth s4) h) as [t02 r02] eqn:R2.
+        assert (Hh : depth s4 + nesting h <= max) by (rewrite Hd4; lia).
+        destruct (IHh s4 Hh _ _ _ E2 _ _ R2) as (-> & Hb2 & Hres2).
+        inversion Hrun; inversion Href; subst.
+        split; [now rewrite Hd4|]. split; [exact Hb2|].
+        destruct r0; [|exact Hres2].
+        destruct Hres2 as (-> & Hact2). split; [reflexivity|]. intros _. exact (Hact2 eq_refl).
+      * (* not for us: outwards *)
+        inversion Hrun; inversion Href; subst. cbn. auto.
+  - (* PCall *)
+    cbn [mrun ref_run] in Hrun, Href. exact (IHp st Hbound _ _ _ Hrun _ _ Href).
+Qed.
+
+End Refinement.
+
+(* ------------------------------------------------------------------ the statements of Properties_C07.v *)
+
+Definition mach := mrun exc_max_depth clear_active_on_catch.
+
+Lemma machine_refines_structured : forall p st,
+  depth st + nesting p <= exc_max_depth ->
+  let '(tr, r, st') := mach p st in
+  let '(tr0, r0) := ref_run (depth st) p in
+  tr = tr0 /\ depth st' = depth st /\ bufs st' = bufs st /\
+  match r0 with
+  | RNormal => r = MNormal /\ (active st = false -> active st' = false)
+  | RRaised k m =>
+      obj st' = Some k /\ msg st' = m /\
+      match bufs st with
+      | [] => r = MDied (Some k) m
+      | t :: _ => r = MJump t
+      end
+  end.
+Proof.
+  intros p st Hb. unfold mach. rewrite clear_active_generated.
+  destruct (mrun exc_max_depth true p st) as [[tr r] st'] eqn:E.
+  destruct (ref_run (depth st) p) as [tr0 r0] eqn:R.
+  destruct (refine exc_max_depth p st Hb _ _ _ E _ _ R) as (-> & Hbufs & Hres).
+  split; [reflexivity|]. split; [exact (depth_bufs _ _ Hbufs)|]. split; [exact Hbufs|].
+  destruct r0 as [|k m]; [exact Hres|].
+  destruct Hres as (Ho & Hm & ->). split; [exact Ho|]. split; [exact Hm|].
+  unfold jump_or_die. rewrite Hbufs. destruct (bufs st); [now rewrite Ho, Hm | reflexivity].
+Qed.
+
+(* a whole program, started on the fresh record of a thread *)
+Lemma whole_program : forall p, nesting p <= exc_max_depth ->
+  let '(tr, r, st') := mach p st_init in
+  let '(tr0, r0) := ref_run 0 p in
+  tr = tr0 /\ depth st' = 0 /\
+  r = match r0 with RNormal => MNormal | RRaised k m => MDied (Some k) m end.
+Proof.
+  intros p Hb.
+  pose proof (machine_refines_structured p st_init) as H. cbn [depth st_init bufs length plus] in H.
+  specialize (H Hb).
+  destruct (mach p st_init) as [[tr r] st'].
+  change (depth st_init) with 0 in H.
+  destruct (ref_run 0 p) as [tr0 r0].
+  destruct H as (-> & Hd & _ & Hres). split; [reflexivity|]. split; [exact Hd|].
+  destruct r0; [apply Hres | apply Hres].
+Qed.
+
+(* a try block whose body ends normally — in particular one whose exceptions were all handled
+   by blocks inside it — never runs its handler, whatever its filter *)
+Lemma handled_not_seen_outside : forall B fs h st,
+  depth st + S (nesting B) <= exc_max_depth ->
+  snd (ref_run (S (depth st)) B) = RNormal ->
+  let '(tr, r, st') := mach (PTry B fs h) st in
+  tr = fst (ref_run (S (depth st)) B) /\ r = MNormal /\ depth st' = depth st /\ active st' = false.
+Proof.
+  intros B fs h st Hb HN. unfold mach. rewrite clear_active_generated.
+  cbn [mrun]. unfold exception_try.
+  assert (Hne : (depth st =? exc_max_depth) = false) by (apply Nat.eqb_neq; lia).
+  rewrite Hne.
+  set (s0 := MS (obj st) (msg st) (depth st :: bufs st) false).
+  assert (Hd0 : depth s0 = S (depth st)) by reflexivity.
+  destruct (mrun exc_max_depth true B s0) as [[t1 r1] s1] eqn:E1.
+  rewrite <- Hd0 in HN |- *.
+  destruct (ref_run (depth s0) B) as [t01 r01] eqn:R1. cbn [snd fst] in *. subst r01.
+  assert (Hb0 : depth s0 + nesting B <= exc_max_depth) by (rewrite Hd0; lia).
+  destruct (refine exc_max_depth B s0 Hb0 _ _ _ E1 _ _ R1) as (-> & Hb1 & -> & Hact).
+  specialize (Hact eq_refl).
+  unfold exception_try_end. rewrite Hb1. cbn [bufs s0].
+  unfold exception_catch. cbn [active]. rewrite Hact. cbn. auto.
+Qed.
+
+(* at the bound the next try aborts ("Exception Buffer Overflow"): the bound of the theorems is sharp *)
+Lemma overflow_aborts : forall b fs h st,
+  depth st = exc_max_depth -> mach (PTry b fs h) st = ([], MAbort, st).
+Proof.
+  intros b fs h st Hd. unfold mach. cbn [mrun]. unfold exception_try.
+  rewrite Hd, Nat.eqb_refl. reflexivity.
+Qed.
+
+(* D3: the machine of the pinned code (exception_catch leaves [active] set) does not follow
+   block structure: the outer handler runs for an exception the inner block handled ... *)
+Definition d3_witness : prog := PTry (PTry (PThrow 0 5) [0] (PTick 1)) [] (PTick 2).
+(* ... and with a non-matching outer filter the program dies although nothing is unhandled *)
+Definition d3_witness_dies : prog := PSeq (PTry (PTry (PThrow 0 5) [0] (PTick 1)) [1] (PTick 2)) (PTick 3).
+
+Lemma unrepaired_refuted :
+  exists p, nesting p <= exc_max_depth /\
+    fst (fst (mrun exc_max_depth false p st_init)) <> fst (ref_run 0 p).
+Proof. exists d3_witness. split; [apply Nat.leb_le; vm_compute; reflexivity | vm_compute; discriminate]. Qed.
+
+Lemma unrepaired_refuted_dies :
+  exists p, nesting p <= exc_max_depth /\ snd (ref_run 0 p) = RNormal /\
+    snd (fst (mrun exc_max_depth false p st_init)) = MDied (Some 0) 5.
+Proof. exists d3_witness_dies. split; [apply Nat.leb_le; vm_compute; reflexivity | split; vm_compute; reflexivity]. Qed.
